@@ -50,6 +50,9 @@ func lookupModel(fn *ssa.Function) modelFn {
 	if m := binaryModels(name); m != nil {
 		return mark(m)
 	}
+	if m := syncMapModels(name); m != nil {
+		return mark(m)
+	}
 	switch {
 	case pkg == "github.com/sirupsen/logrus":
 		return mark(modelNoEffect)
